@@ -601,4 +601,70 @@ theorem optional_octets_spec (tag : UInt8) (s : Bytes) :
   · have h' : peekTag tag s = false := by simpa using h
     simp [h']
 
+/-- the `[]byte` out-parameter form: leading zero octets removed, zero stays one octet, value preserved -/
+theorem stripZeros_spec : ∀ (b : Bytes), b ≠ [] →
+    natOfBE (stripZeros b) = natOfBE b ∧ stripZeros b ≠ [] ∧ (∀ x y t, stripZeros b = x :: y :: t → x ≠ 0)
+  | [], h => absurd rfl h
+  | [a], _ => by
+    have : stripZeros [a] = [a] := by unfold stripZeros; split <;> simp_all
+    rw [this]; exact ⟨rfl, by simp, by intro x y t h; simp at h⟩
+  | a :: b :: r, _ => by
+    by_cases ha : a = 0
+    · subst ha
+      have e : stripZeros (0 :: b :: r) = stripZeros (b :: r) := by rw [stripZeros]
+      obtain ⟨i1, i2, i3⟩ := stripZeros_spec (b :: r) (by simp)
+      rw [e]
+      refine ⟨?_, i2, i3⟩
+      rw [i1, natOfBE_cons 0]; simp
+    · have e : stripZeros (a :: b :: r) = a :: b :: r := by
+        unfold stripZeros
+        split
+        · rename_i h; simp only [List.cons.injEq] at h; exact absurd h.1 ha
+        · rfl
+      rw [e]
+      refine ⟨rfl, by simp, ?_⟩
+      intro x y t h
+      simp only [List.cons.injEq] at h
+      rw [← h.1]; exact ha
+
+/-- **ReadASN1Integer(*[]byte)**: non-negative minimal INTEGERs only; out = the value's unsigned big-endian form -/
+theorem readIntBytes_iff (s r out : Bytes) :
+    readIntBytes s = some (out, r) ↔
+      ∃ body, readASN1Tag 2 s = some (body, r) ∧ checkASN1Integer body = true ∧ 0 ≤ twosVal body ∧
+        out = stripZeros body := by
+  unfold readIntBytes
+  cases hbd : readIntBody 2 s with
+  | none =>
+    simp only [false_iff, not_exists, reduceCtorEq]
+    intro body ⟨hr, hc, _⟩
+    have := (readIntBody_iff 2 s body r).mpr ⟨hr, hc⟩
+    rw [hbd] at this; cases this
+  | some p =>
+    obtain ⟨b, r'⟩ := p
+    obtain ⟨hr, hc⟩ := (readIntBody_iff 2 s b r').mp hbd
+    match b, hc, hr with
+    | b0 :: rest, hc, hr =>
+      simp only
+      have hnn := (twosVal_nonneg_iff b0 rest).1
+      rw [neg_bit']
+      by_cases hneg : 128 ≤ b0.toNat
+      · rw [if_pos (by simpa using hneg)]
+        simp only [false_iff, not_exists, reduceCtorEq]
+        rintro body ⟨hr', _, h0, _⟩
+        rw [hr] at hr'
+        simp only [Option.some.injEq, Prod.mk.injEq] at hr'
+        obtain ⟨rfl, _⟩ := hr'
+        have := hnn.mp h0
+        omega
+      · rw [if_neg (by simpa using hneg)]
+        simp only [Option.some.injEq, Prod.mk.injEq]
+        constructor
+        · rintro ⟨rfl, rfl⟩
+          exact ⟨b0 :: rest, hr, hc, hnn.mpr (by omega), rfl⟩
+        · rintro ⟨body, hr', _, _, rfl⟩
+          rw [hr] at hr'
+          simp only [Option.some.injEq, Prod.mk.injEq] at hr'
+          obtain ⟨rfl, rfl⟩ := hr'
+          exact ⟨rfl, rfl⟩
+
 end XC.C23
